@@ -335,6 +335,10 @@ def F70():
         return False
     return True
 
+def F71():
+    from formulaic.transforms import ContrastsRegistry as contr
+    return exc(lambda: contr.sum().apply(np.eye(3)[[0, 1, 2, 0]], levels=["a", "b", "c"], reduced_rank=True)) is not None
+
 ids = sys.argv[1:] or [f"F{i}" for i in range(1, 26)]
 for i in ids:
     try:
